@@ -2703,6 +2703,40 @@ func unknownKeySkipped(f *ssa.Function) (string, bool) {
 				pruned[edge{b, eq}] = true
 				nMatch++
 			}
+			// i := fieldIndexByJSONTag(typ, key); if i < 0 { unknown }: the index of the field whose tag is the key, -1 if none
+			if call, isC := x.X.(*ssa.Call); isC {
+				if h := helperBody(call); h != nil {
+					if bt, isB := call.Type().Underlying().(*types.Basic); isB && bt.Info()&types.IsInteger != 0 {
+						usesTag, usesKey := false, false
+						eachCall(h, func(_ ssa.CallInstruction, n string) {
+							if strings.HasSuffix(n, "StructTag).Lookup") || strings.HasSuffix(n, "StructTag).Get") {
+								usesTag = true
+							}
+						})
+						for _, a := range callArgs(call) {
+							if fromKey(a) {
+								usesKey = true
+							}
+						}
+						if k, isK := constInt(x.Y); isK && usesTag && usesKey {
+							found := -1 // the successor index on which a field was found
+							switch {
+							case x.Op == token.LSS && k == 0, x.Op == token.EQL && k == -1, x.Op == token.LEQ && k == -1:
+								found = 1
+							case x.Op == token.GEQ && k == 0, x.Op == token.NEQ && k == -1, x.Op == token.GTR && k == -1:
+								found = 0
+							}
+							if found >= 0 {
+								if !positive {
+									found = 1 - found
+								}
+								pruned[edge{b, found}] = true
+								nMatch++
+							}
+						}
+					}
+				}
+			}
 		case *ssa.Extract:
 			// field, ok := fieldByJSONTag(val, key)
 			if call, isC := x.Tuple.(*ssa.Call); isC && isBoolType(x.Type()) {
